@@ -323,12 +323,26 @@ func c20Body(t *testing.T, combos [][]int, withStop bool, bound int, metrics ...
 			s.gates.install()
 			// one more scheduling point: the moment a reply (acknowledgement or read result) leaves the store
 			stNc := inst.StNc
+			// requests whose delivery to a store handler was granted (the handler has started) / replies the store
+			// has published: a request the store has begun to handle must be answered, whatever happens next
+			var dispMu sync.Mutex
+			dispatched, replied := map[string]string{}, map[string]bool{}
 			nats.SetPublishHook(func(nc *nats.Conn, subj string) {
 				if nc == stNc && strings.HasPrefix(subj, "_INBOX.") {
 					vgate.Gate("reply.publish", "")
+					dispMu.Lock()
+					replied[subj] = true
+					dispMu.Unlock()
 				}
 			})
 			defer nats.SetPublishHook(nil)
+			s.onDeliver = func(d nats.PendingDelivery) {
+				if d.Conn == stNc.ID() && d.Reply != "" {
+					dispMu.Lock()
+					dispatched[d.Reply] = d.Subject
+					dispMu.Unlock()
+				}
+			}
 			s.choose = bound > 0
 			s.trace = &trace
 			var wg sync.WaitGroup
@@ -374,6 +388,23 @@ func c20Body(t *testing.T, combos [][]int, withStop bool, bound int, metrics ...
 			s.gates = nil
 			s.choose = false
 			s.trace = nil
+			s.onDeliver = nil
+			unanswered := func() (subj string) {
+				dispMu.Lock()
+				defer dispMu.Unlock()
+				for inbox, sj := range dispatched {
+					if !replied[inbox] && (subj == "" || sj < subj) {
+						subj = sj
+					}
+				}
+				return
+			}
+			if unanswered() != "" {
+				s.run(2 * time.Second) // (a handler released from its gate just now may still be on its way)
+				if subj := unanswered(); subj != "" {
+					rec.fail("dispatched-request-never-answered", fmt.Sprintf("the store began to handle the request on %s (its handler was started) and never published a reply: the requester waits for its whole timeout and cannot tell whether the write happened", subj))
+				}
+			}
 			x.Step(len(trace))
 			fail := func() {
 				sort.Strings(rec.problems)
@@ -513,8 +544,11 @@ func TestC20(t *testing.T) {
 			sb = 2
 		}
 		r.Explore(mc.Config{Name: fmt.Sprintf("shutdown-p%d", sb), Serial: true, SplitDepth: 4, DevBound: sb,
-			Rule: fmt.Sprintf("the pairs {W1,W2}, {W1,R} with a concurrent Store.Stop at every point (at most %d preemptions): Stop returns, no subscription of the store is left on the bus, the file opens again with the same root, every acknowledged write is present, hashes consistent", sb)},
+			Rule: fmt.Sprintf("the pairs {W1,W2}, {W1,R} with a concurrent Store.Stop at every point (at most %d preemptions): Stop returns, no subscription of the store is left on the bus, the file opens again with the same root, every acknowledged write is present, hashes consistent, a request whose handler the store has started is answered", sb)},
 			c20Body(t, [][]int{{0, 1}, {0, 2}}, true, sb))
+		r.Explore(mc.Config{Name: "shutdown-single-client-p2", Serial: true, SplitDepth: 3, DevBound: 2,
+			Rule: "one client alone (W1, W2, V or M) with a concurrent Store.Stop at every point, at most 2 preemptions (the shutdown can overtake a handler that has started and overtake it again at its next step): as shutdown-p1, and a request whose handler the store has started is answered"},
+			c20Body(t, [][]int{{0}, {1}, {3}, {4}}, true, 2))
 		if i, _ := mc.Shard(); i == 0 {
 			c20RacePart(r)
 			c20ServerStopPart(r)
@@ -805,5 +839,6 @@ func init() {
 	bodies["C20/schedules-p3"] = func(t *testing.T) mc.Body { return c20Body(t, c20Triples(false)[:4], false, 3) }
 	bodies["C20/schedules-with-metrics-p1"] = func(t *testing.T) mc.Body { return c20Body(t, c20Triples(false)[:2], false, 1, true) }
 	bodies["C20/shutdown-p1"] = func(t *testing.T) mc.Body { return c20Body(t, [][]int{{0, 1}, {0, 2}}, true, 1) }
+	bodies["C20/shutdown-single-client-p2"] = func(t *testing.T) mc.Body { return c20Body(t, [][]int{{0}, {1}, {3}, {4}}, true, 2) }
 	bodies["C20/shutdown-p2"] = func(t *testing.T) mc.Body { return c20Body(t, [][]int{{0, 1}, {0, 2}}, true, 2) }
 }
